@@ -60,6 +60,17 @@ def drop_aligned_sums(I, n, m):
     return out
 
 
+def aligned_sum_facts(I, n, m):
+    """literals `PS ≡ 0 (mod m)` for the prefix sums in n all of whose summands are multiples of m (same induction)"""
+    out = []
+    for a, c in n.t.items():
+        if a[0] == "ps":
+            f = I.loops.psfuns.get(a[2])
+            if f and all(solver.entails(cond, flit(eq(Lin.atom(("mod", d.key(), m)), 0))) for cond, d in f["cases"]):
+                out.append(eq(Lin.atom(("mod", Lin.atom(a).key(), m)), 0))
+    return out
+
+
 def wrapper_shape(res, F, D, d, recv, label, I=None):
     """write_into(&self, buf): Err(e) iff size Err(e); Err(OutputTooSmall(n)) iff len < n; else Ok(unchecked(buf[..n]))"""
     I = I or Interp(F)
